@@ -743,13 +743,14 @@ theorem verify_of_root (O : Oracles) (m : Int) (hm : 0 < m) (sig : Text) (hid : 
   rw [hfoo, if_neg hfit]
   exact padOk_padValue O _ (by omega) data r
 
-/-- **`verify_sign`**: for every Blum key (`m = p·q`, `p ≡ q ≡ 3 (mod 4)`) with well-formed
-    pre-computed values, every data string, all coins and ARBITRARY oracles `h`, `g`: whenever `sign`
-    returns a signature (its size assertions hold and one of the drawn seeds gives a quadratic
-    residue), `verify` accepts it. -/
-theorem verify_sign (O : Oracles) (K : SecKey) (P : Pre) (hK : BlumKey K) (hP : PreOk K P)
-    (hid : KeyIdOk K.sig) (data : Bytes) (rs : List Bytes) (idx : Nat) (s : Text)
-    (h : sign O K P data rs idx = .ok s) : verify O K.m K.sig data s = true := by
+/-- what `sign` returns: the text frame around a square root of the padded value of one of the seeds -/
+theorem sign_spec (O : Oracles) (K : SecKey) (P : Pre) (hK : BlumKey K) (hP : PreOk K P)
+    (data : Bytes) (rs : List Bytes) (idx : Nat) (s : Text)
+    (h : sign O K P data rs idx = .ok s) :
+    bitlen K.m > bitlen K.m / 8 * 8 ∧ bitlen K.m / 8 > mdsize + K0 ∧
+    ∃ (r : Bytes) (root : Int), s = sigText (keyid K.sig Gen.TMCG_KEYID_SIZE) root ∧
+      padValue O (bitlen K.m / 8) data r ≠ 0 ∧
+      root * root ≡ (padValue O (bitlen K.m / 8) data r : Int) [ZMOD K.m] := by
   unfold sign at h
   simp only at h
   by_cases hL : bitlen K.m > bitlen K.m / 8 * 8
@@ -759,6 +760,7 @@ theorem verify_sign (O : Oracles) (K : SecKey) (P : Pre) (hK : BlumKey K) (hP : 
   swap
   · simp [hL, hmn] at h
   simp only [hL, hmn, not_true_eq_false, if_false] at h
+  refine ⟨hL, hmn, ?_⟩
   cases hf : firstQr O K.p K.q (bitlen K.m / 8) data rs with
   | none => rw [hf] at h; simp at h
   | some foo =>
@@ -768,13 +770,11 @@ theorem verify_sign (O : Oracles) (K : SecKey) (P : Pre) (hK : BlumKey K) (hP : 
     obtain ⟨r1, r2, r3, r4, hroots, s1, s2, s3, s4⟩ := sqrtmnFastAll_sq K P hK hP foo hqr
     rw [hroots] at h
     simp only [Except.ok.injEq] at h
-    have hmpos : 0 < K.m := by rw [hK.m_eq]; exact Int.mul_pos hK.p_pos hK.q_pos
     have hne : padValue O (bitlen K.m / 8) data r ≠ 0 := by
       rw [← hfoo]; rintro rfl
       have := ((qrmn_iff _ _ _).mp hqr).1
       rw [Nat.cast_zero, jacobi_zero _ hK.p_prime.one_lt (by have := hK.p3; omega)] at this
       exact absurd this (by decide)
-    rw [← h]
     have hsel : ∀ v, v ∈ [r1, r2, r3, r4] → v * v ≡ (foo : Int) [ZMOD K.m] := by
       intro v hv
       simp only [List.mem_cons, List.not_mem_nil, or_false] at hv
@@ -785,7 +785,18 @@ theorem verify_sign (O : Oracles) (K : SecKey) (P : Pre) (hK : BlumKey K) (hP : 
       rcases h4 with e | e | e | e <;> rw [e] <;> simp
     have := hsel _ hmem
     rw [hfoo] at this
-    exact verify_of_root O K.m hmpos K.sig hid data r _ hL hmn hne this
+    exact ⟨r, _, h.symm, hne, this⟩
+
+/-- **`verify_sign`**: for every Blum key (`m = p·q`, `p ≡ q ≡ 3 (mod 4)`) with well-formed
+    pre-computed values, every data string, all coins and ARBITRARY oracles `h`, `g`: whenever `sign`
+    returns a signature (its size assertions hold and one of the drawn seeds gives a quadratic
+    residue), `verify` accepts it. -/
+theorem verify_sign (O : Oracles) (K : SecKey) (P : Pre) (hK : BlumKey K) (hP : PreOk K P)
+    (hid : KeyIdOk K.sig) (data : Bytes) (rs : List Bytes) (idx : Nat) (s : Text)
+    (h : sign O K P data rs idx = .ok s) : verify O K.m K.sig data s = true := by
+  obtain ⟨hL, hmn, r, root, rfl, hne, hsq⟩ := sign_spec O K P hK hP data rs idx s h
+  have hmpos : 0 < K.m := by rw [hK.m_eq]; exact Int.mul_pos hK.p_pos hK.q_pos
+  exact verify_of_root O K.m hmpos K.sig hid data r _ hL hmn hne hsq
 
 /-! ### exact acceptance condition of `verify` -/
 
